@@ -1166,18 +1166,39 @@ func c07Load(path string) *c07Case {
 
 func runC07(c *Ctx) {
 	c.Rep.Rule = "filter: `fzf --filter` process runs over random record lists (blanks, empty, multi-line NUL records, non-ASCII, ANSI, invalid UTF-8) x --with-nth/--delimiter/--ansi/--read0/--print0/--print-query/+s/--tac/--sync; non-trivial = at least two records and one printed. session: pty + --listen runs with random selection histories and every ending; non-trivial = at least one selection/print event (or an immediate -1/-0 exit). accept: the -1/-0 path (no terminal) with --accept-nth over AWK-style, literal (one and several bytes, overlapping) and '[set]'/'[set]+' delimiters, random field index expression lists and templates, records built around the delimiter (empty fields, consecutive/trailing delimiters, delimiter fragments, blanks around delimiters); the same shapes in a third of the pty sessions and in bulk sessions (select-all/toggle-all over 8-20 records, then accept); spec = OutputSpec.accept_text on the implementation's stdout (op 705). distinct by JSON of the case"
+	loadBig := func(path string) *c07Big {
+		b, err := os.ReadFile(path)
+		if err != nil {
+			return nil
+		}
+		var w struct{ Input c07Big }
+		if json.Unmarshal(b, &w) == nil && w.Input.Kind == "big" {
+			return &w.Input
+		}
+		var cs c07Big
+		if json.Unmarshal(b, &cs) == nil && cs.Kind == "big" {
+			return &cs
+		}
+		return nil
+	}
 	if c.Replay != "" {
-		if cs := c07Load(c.Replay); cs != nil {
+		if big := loadBig(c.Replay); big != nil {
+			c07BigCheck(c, big)
+		} else if cs := c07Load(c.Replay); cs != nil {
 			c07RunCase(c, cs)
 		}
 		return
 	}
 	for _, f := range corpusFiles(c) {
-		if cs := c07Load(f); cs != nil {
+		if big := loadBig(f); big != nil {
+			c07BigCheck(c, big)
+			c.Rep.Count("corpus")
+		} else if cs := c07Load(f); cs != nil {
 			c07RunCase(c, cs)
 			c.Rep.Count("corpus")
 		}
 	}
+	c07BigStream(c)
 	for _, a := range c07Invalid {
 		c07ErrorCheck(c, a)
 	}
